@@ -15,16 +15,16 @@ Open Scope bool_scope.
 
 (* a success / error response changes nothing unless its transaction id is pending; if it is, it
    changes nothing that is protected, removes exactly that entry and hands the verdict to the check *)
-Theorem C06_response_needs_txn : forall s la src k, is_response k ->
-  (lookup (k_tx k) (a_pending s) = None -> on_packet s la src k = (s, [])) /\
+Theorem C06_response_needs_txn : forall s sk la src k, is_response k ->
+  (lookup (k_tx k) (a_pending s) = None -> on_packet s sk la src k = (s, [])) /\
   (forall t, lookup (k_tx k) (a_pending s) = Some t ->
-     let s' := fst (on_packet s la src k) in
+     let s' := fst (on_packet s sk la src k) in
      protected s' = protected s /\
      a_role s' = a_role s /\ a_locals s' = a_locals s /\ a_latching s' = a_latching s /\ a_rounds s' = a_rounds s /\
      lookup (k_tx k) (a_pending s') = None /\
      (forall id, id <> k_tx k -> lookup id (a_pending s') = lookup id (a_pending s)) /\
      a_done s' = a_done s ++ [(t, succ_of k && is_binding k)] /\
-     snd (on_packet s la src k) = [ODeliver (k_tx k) (succ_of k)]).
+     snd (on_packet s sk la src k) = [ODeliver (k_tx k) (succ_of k)]).
 Proof. exact response_needs_txn. Qed.
 
 (* ... over histories: responses that are unsolicited when they arrive can be deleted from any
@@ -48,31 +48,45 @@ Theorem C06_request_auth_refuted :
     a_role s = IceRole_Controlled /\ a_state s = St_Checking /\ a_remotes s = [] /\
     a_selected s = None /\ a_nominated s = None /\
     classify k = CReq /\ k_has_username k = false /\ k_has_mi k = false /\ authenticated k = false /\
-    k_use_candidate k = true /\ mutation_class s src k = true /\
-    let s' := fst (on_packet s la src k) in
+    k_use_candidate k = true /\ mutation_class s KUdp src k = true /\
+    let s' := fst (on_packet s KUdp la src k) in
     a_remotes s' = [prflx src] /\
     a_selected s' = Some (mkPair f18_local (prflx src)) /\
     a_nominated s' = Some true /\ a_state s' = St_Connected.
 Proof. exact request_auth_witness. Qed.
 
+(* the same on an accepted ICE-TCP stream, where not even USE-CANDIDATE is needed *)
+Theorem C06_request_auth_refuted_tcp :
+  exists s la src k,
+    a_role s = IceRole_Controlled /\ a_state s = St_Checking /\ a_remotes s = [] /\
+    a_selected s = None /\ a_nominated s = None /\
+    classify k = CReq /\ k_has_username k = false /\ k_has_mi k = false /\ authenticated k = false /\
+    k_use_candidate k = false /\ mutation_class s KTcp src k = true /\
+    let s' := fst (on_packet s KTcp la src k) in
+    a_remotes s' = [prflx_k KTcp src] /\
+    a_selected s' = Some (mkPair f18_local_tcp (prflx_k KTcp src)) /\
+    a_nominated s' = Some true /\ a_state s' = St_Connected.
+Proof. exact request_auth_witness_tcp. Qed.
+
 (* what does hold: a request without valid credentials that is outside the listed class
-   (known source, no latching retarget, no USE-CANDIDATE on the controlled side) leaves remote
+   (known source, no latching retarget, no USE-CANDIDATE on the controlled side of a datagram
+   socket, not an ICE-TCP stream of a controlled agent awaiting nomination) leaves remote
    candidates, selected pair, nomination flag and state untouched *)
-Theorem C06_unauth_inert_outside_class : forall s la src k, classify k = CReq -> authenticated k = false ->
-  mutation_class s src k = false ->
-  protected (fst (on_packet s la src k)) = protected s.
+Theorem C06_unauth_inert_outside_class : forall s sk la src k, classify k = CReq -> authenticated k = false ->
+  mutation_class s sk src k = false ->
+  protected (fst (on_packet s sk la src k)) = protected s.
 Proof. exact unauth_inert_outside_class. Qed.
 
-(* everything a request does, exactly (E1 response, E2 learning, E3 latching retarget,
-   E4 USE-CANDIDATE selection / nomination / Connected), and what it never touches *)
+(* datagram sockets: everything a request does, exactly (E1 response, E2 learning, E3 latching
+   retarget, E4 USE-CANDIDATE selection / nomination / Connected), and what it never touches *)
 Theorem C06_unauth_effects_exact : forall s la src k, classify k = CReq ->
-  let s' := fst (on_packet s la src k) in
+  let s' := fst (on_packet s KUdp la src k) in
   a_pending s' = a_pending s /\ a_done s' = a_done s /\ a_rounds s' = a_rounds s /\
   a_role s' = a_role s /\ a_locals s' = a_locals s /\ a_latching s' = a_latching s /\
-  snd (on_packet s la src k) = OSend src (k_tx k) :: (if known (a_remotes s) src then [] else [ORunChecks]) /\
-  a_remotes s' = remotes_after s src /\
+  snd (on_packet s KUdp la src k) = OSend src (k_tx k) :: (if known (a_remotes s) src then [] else [ORunChecks]) /\
+  a_remotes s' = remotes_after s KUdp src /\
   (if k_use_candidate k && role_guard (a_role s) then
-     match find_local (a_locals s) la, find_remote (remotes_after s src) src with
+     match find_local (a_locals s) la, find_remote (remotes_after s KUdp src) src with
      | Some l, Some r =>
          a_state s' = St_Connected /\ a_nominated s' = Some true /\
          a_selected s' = (if should_select (sel_after_latch s src) (a_nominated s) (a_role s) (mkPair l r)
@@ -82,49 +96,66 @@ Theorem C06_unauth_effects_exact : forall s la src k, classify k = CReq ->
    else a_state s' = a_state s /\ a_nominated s' = a_nominated s /\ a_selected s' = sel_after_latch s src).
 Proof. exact request_effects_exact. Qed.
 
+(* ICE-TCP streams: E1..E3 as above; E4' any request completes nomination on a controlled agent
+   that is not nominated yet, selecting the pair (passive TCP candidate, source) *)
+Theorem C06_unauth_effects_exact_tcp : forall s la src k, classify k = CReq ->
+  let s' := fst (on_packet s KTcp la src k) in
+  a_pending s' = a_pending s /\ a_done s' = a_done s /\ a_rounds s' = a_rounds s /\
+  a_role s' = a_role s /\ a_locals s' = a_locals s /\ a_latching s' = a_latching s /\
+  snd (on_packet s KTcp la src k) = OSend src (k_tx k) :: (if known (a_remotes s) src then [] else [ORunChecks]) /\
+  a_remotes s' = remotes_after s KTcp src /\
+  (if tcp_applies s KTcp then
+     a_nominated s' = Some true /\
+     match find_local_tcp (a_locals s) la, find_remote (remotes_after s KTcp src) src with
+     | Some l, Some r => a_state s' = St_Connected /\ a_selected s' = Some (mkPair l r)
+     | _, _ => a_state s' = a_state s /\ a_selected s' = sel_after_latch s src
+     end
+   else a_state s' = a_state s /\ a_nominated s' = a_nominated s /\ a_selected s' = sel_after_latch s src).
+Proof. exact request_effects_exact_tcp. Qed.
+
 (* the candidate E4 pairs with always exists: the known one, else the one just learned *)
-Theorem C06_remote_after_learning : forall s src,
-  exists r, find_remote (remotes_after s src) src = Some r /\ c_addr r = src /\
+Theorem C06_remote_after_learning : forall s sk src,
+  exists r, find_remote (remotes_after s sk src) src = Some r /\ c_addr r = src /\
             (known (a_remotes s) src = true -> find_remote (a_remotes s) src = Some r) /\
-            (known (a_remotes s) src = false -> r = prflx src).
+            (known (a_remotes s) src = false -> r = prflx_k sk src).
 Proof. exact remote_after_learning. Qed.
 
 (* the credential facts (and PRIORITY) play no part in the outcome *)
-Theorem C06_auth_blind : forall s la src k hu uo hm mo pr,
-  on_packet s la src (with_auth k hu uo hm mo pr) = on_packet s la src k.
+Theorem C06_auth_blind : forall s sk la src k hu uo hm mo pr,
+  on_packet s sk la src (with_auth k hu uo hm mo pr) = on_packet s sk la src k.
 Proof. exact auth_blind. Qed.
 
 (* a request never touches pending transactions, check results or nominating rounds *)
-Theorem C06_request_keeps_transactions : forall s la src k, classify k = CReq ->
-  let s' := fst (on_packet s la src k) in
+Theorem C06_request_keeps_transactions : forall s sk la src k, classify k = CReq ->
+  let s' := fst (on_packet s sk la src k) in
   a_pending s' = a_pending s /\ a_done s' = a_done s /\ a_rounds s' = a_rounds s.
 Proof. exact request_keeps_transactions. Qed.
 
 (* learning an unknown source is always a change of the protected state *)
-Theorem C06_learning_is_mutation : forall s la src k, classify k = CReq -> known (a_remotes s) src = false ->
-  a_remotes (fst (on_packet s la src k)) = a_remotes s ++ [prflx src] /\
-  protected (fst (on_packet s la src k)) <> protected s.
+Theorem C06_learning_is_mutation : forall s sk la src k, classify k = CReq -> known (a_remotes s) src = false ->
+  a_remotes (fst (on_packet s sk la src k)) = a_remotes s ++ [prflx_k sk src] /\
+  protected (fst (on_packet s sk la src k)) <> protected s.
 Proof. exact learning_is_mutation. Qed.
 
 (* once nominated, a request moves the selection only to a pair of strictly higher priority
    (latching aside) -- depends on the translated comparison Gen.IceAgent.upgrade_cmp *)
-Theorem C06_upgrade_monotone : forall s la src k p p', classify k = CReq ->
+Theorem C06_upgrade_monotone : forall s sk la src k p p', classify k = CReq ->
   latch_applies s src = false -> is_some (a_nominated s) = true ->
-  a_selected s = Some p -> a_selected (fst (on_packet s la src k)) = Some p' ->
+  a_selected s = Some p -> a_selected (fst (on_packet s sk la src k)) = Some p' ->
   p' = p \/ pair_prio p (a_role s) < pair_prio p' (a_role s).
 Proof. exact upgrade_monotone. Qed.
 
 (* a controlling agent ignores USE-CANDIDATE *)
-Theorem C06_controlling_ignores_use_candidate : forall s la src k, classify k = CReq ->
+Theorem C06_controlling_ignores_use_candidate : forall s sk la src k, classify k = CReq ->
   a_role s = IceRole_Controlling ->
-  let s' := fst (on_packet s la src k) in
+  let s' := fst (on_packet s sk la src k) in
   a_state s' = a_state s /\ a_nominated s' = a_nominated s /\ a_selected s' = sel_after_latch s src.
 Proof. exact controlling_ignores_use_candidate. Qed.
 
 (* indications, undecodable STUN and non-STUN datagrams change nothing and are not answered *)
-Theorem C06_non_request_inert : forall s la src k,
+Theorem C06_non_request_inert : forall s sk la src k,
   classify k = CInd \/ classify k = CBad \/ classify k = CData ->
-  fst (on_packet s la src k) = s /\ sends (snd (on_packet s la src k)) = [].
+  fst (on_packet s sk la src k) = s /\ sends (snd (on_packet s sk la src k)) = [].
 Proof. exact non_request_inert. Qed.
 
 (* in every history of the code, every remote candidate and the remote end of the selected pair
@@ -140,21 +171,21 @@ Proof. exact addresses_origin_code. Qed.
 
 (* the full property: a request without valid credentials changes nothing and gets no Binding
    success; a response acts only through a pending transaction and consumes exactly it *)
-Theorem C06_guarded_sound : forall s la src k,
+Theorem C06_guarded_sound : forall s sk la src k,
   (classify k = CReq -> authenticated k = false ->
-     fst (on_packet_guarded s la src k) = s /\ sends (snd (on_packet_guarded s la src k)) = []) /\
+     fst (on_packet_guarded s sk la src k) = s /\ sends (snd (on_packet_guarded s sk la src k)) = []) /\
   (is_response k ->
-     protected (fst (on_packet_guarded s la src k)) = protected s /\
-     (lookup (k_tx k) (a_pending s) = None -> on_packet_guarded s la src k = (s, [])) /\
+     protected (fst (on_packet_guarded s sk la src k)) = protected s /\
+     (lookup (k_tx k) (a_pending s) = None -> on_packet_guarded s sk la src k = (s, [])) /\
      (forall t, lookup (k_tx k) (a_pending s) = Some t ->
-        lookup (k_tx k) (a_pending (fst (on_packet_guarded s la src k))) = None /\
+        lookup (k_tx k) (a_pending (fst (on_packet_guarded s sk la src k))) = None /\
         (forall id, id <> k_tx k ->
-           lookup id (a_pending (fst (on_packet_guarded s la src k))) = lookup id (a_pending s)))).
+           lookup id (a_pending (fst (on_packet_guarded s sk la src k))) = lookup id (a_pending s)))).
 Proof. exact guarded_sound. Qed.
 
 (* it differs from the code only on requests without valid credentials *)
-Theorem C06_guarded_agrees : forall s la src k, (classify k = CReq -> authenticated k = true) ->
-  on_packet_guarded s la src k = on_packet s la src k.
+Theorem C06_guarded_agrees : forall s sk la src k, (classify k = CReq -> authenticated k = true) ->
+  on_packet_guarded s sk la src k = on_packet s sk la src k.
 Proof. exact guarded_agrees. Qed.
 
 (* over histories: requests without valid credentials can be deleted from any history *)
@@ -181,8 +212,8 @@ Proof. exact mux_history. Qed.
 
 (* what it adds: a datagram from a source it has not recorded reaches (changes) the agent only if
    it is a Binding request whose USERNAME names this session's ufrag -- no password needed *)
-Theorem C06_mux_stranger_needs_ufrag : forall m s la src k,
+Theorem C06_mux_stranger_needs_ufrag : forall m s sk la src k,
   mux_get m src = None ->
-  snd (fst (mux_step (m, s) (Pkt la src k))) <> s ->
+  snd (fst (mux_step (m, s) (Pkt sk la src k))) <> s ->
   mux_extracts k = true /\ k_ufrag k = 1 /\ classify k = CReq.
 Proof. exact mux_stranger_needs_ufrag. Qed.
